@@ -404,4 +404,6 @@ class CFG(TTCFG[CFGState, NoneType]):
                             list_to_be_treated.appendleft(new_context)
                     rules[non_terminal][P] = (decorated_arguments_self, None)
 
-        return CFG(start=initital_ctx, rules=rules)
+        cfg = CFG(start=initital_ctx, rules=rules)
+        cfg.type_request = type_request
+        return cfg
